@@ -165,6 +165,7 @@ type Finding struct {
 	Decisions string            `json:"decisions"`
 	Inconclusive bool           `json:"inconclusive,omitempty"`
 	Replayed  string            `json:"replayed,omitempty"`
+	Replay    *ReplayInfo       `json:"replay,omitempty"`
 	Trace     []Decision        `json:"-"`
 }
 
@@ -212,6 +213,16 @@ type PathCtx struct {
 func (pc *PathCtx) Report(kind, path, note string, model map[string]uint64, inconclusive bool) {
 	f := Finding{Conv: pc.Conv.ID, Family: pc.Conv.Family, Kind: kind, Path: path, Note: note, Model: model, Inconclusive: inconclusive}
 	f.Input = RenderArgs(pc, model)
+	if !inconclusive {
+		func() {
+			defer func() {
+				if rec := recover(); rec != nil {
+					f.Replay = &ReplayInfo{Unsupported: fmt.Sprintf("replay construction failed: %v", rec)}
+				}
+			}()
+			f.Replay = BuildReplay(pc, model)
+		}()
+	}
 	f.Decisions = fmt.Sprint(pc.R.Decisions)
 	f.Trace = append([]Decision(nil), pc.R.Decisions...)
 	pc.Rep.mu.Lock()
